@@ -35,6 +35,7 @@ class ClientCtx:
         self.stmt = stmt
         self.events = []
         self.obj_calls = 0
+        self.eval_idx = 0           # maintained by the Problem.__call__ seam
         self.con_calls = [0] * len(stmt.get("nonlinear") or [])
         self.cb_calls = 0
         self.cb_raised = False
@@ -176,7 +177,8 @@ def make_constraint_fun(ctx0, j, spec, shared=False):
         xl = xa.tolist()
         ctx.world.yield_point(ctx, "con.call")
         ctx.con_calls[j] += 1
-        idx = ctx.obj_calls if has_obj else ctx.con_calls[j]
+        # faults are keyed by evaluation index, not by how often scipy's cache let the call through
+        idx = ctx.obj_calls if has_obj else (ctx.eval_idx or ctx.con_calls[j])
         vals = []
         fks = []
         bad_dim = len(xl) != n_full
